@@ -214,7 +214,10 @@ def run_case(case):
         out.label("default-fallback-updater")
         variants.append(("after-earlier-seed-updates", ["plain", "history"]))
     variants.append(("after-abandoned-replication-and-cleanup", ["plain", "abandon"]))
-    variants.append(("paused-by-time-changed-listener", ["pause-tc", 1 + case["k"] % 4]))
+    if digest(case)[2] % 2 == 0:        # (each of the two in half of the cases: the quick tier stays quick)
+        variants.append(("paused-by-time-changed-listener", ["pause-tc", 1 + case["k"] % 4]))
+    else:
+        variants.append(("exclusive-bounds-the-last-beyond-the-end", ["bounded-x", case["frac"]]))
     for name, drive in variants:
         c_ = case
         if drive[-1] == "history":
@@ -224,8 +227,14 @@ def run_case(case):
         else:
             d = common.run_program(c_, drive[:1] + drive[2:] if drive[-1] == "twice" else drive,
                                    twice=drive[-1] == "twice")
-        if d != plain:
-            out.fail("digest-differs-" + name, _first_diff(plain, d))
+        ref_d = plain
+        if name == "exclusive-bounds-the-last-beyond-the-end":
+            # an exclusive bound that falls exactly on an event time moves the clock there without an announcement;
+            # the event then needs none (the time does not change): TIME_CHANGED is left out of this comparison
+            strip = lambda dd: dict(dd, notifications=[e for e in dd["notifications"] if e[0] != "TIME_CHANGED"])
+            d, ref_d = strip(d), strip(plain)
+        if d != ref_d:
+            out.fail("digest-differs-" + name, _first_diff(ref_d, d))
             break
         if name == "first-events-by-single-steps" and common.LAST_CLOCK_ADVANCES != ca_plain:
             # inside a TIME_CHANGED notification the clock still shows the time before the change - whether the
